@@ -848,7 +848,7 @@ func (c *Ctx) doLock(s *State, in ssa.Instruction, key string, base Term, write 
 	if !write {
 		evn = "rlock:" + key
 	}
-	s.trace = append(s.trace, Event{Name: evn, Args: []Value{Sc{T: base}}, PC: len(s.pc), Pos: pos, Seq: s.seq})
+	s.trace = append(s.trace, Event{Name: evn, Args: []Value{Sc{T: base}}, PC: len(s.pc), Pos: pos, Seq: s.seq, GW: s.gwrites})
 	// time passes while waiting for the lock
 	c.getHeap(s, "Clock", SInt)
 	c.havocHeap(s, "Clock")
@@ -925,7 +925,10 @@ func (c *Ctx) doUnlock(s *State, in ssa.Instruction, key string, base Term, pos 
 		s.locks = append(s.locks[:idx:idx], s.locks[idx+1:]...)
 	}
 	s.seq++
-	s.trace = append(s.trace, Event{Name: "unlock:" + key, Args: []Value{Sc{T: base}}, PC: len(s.pc), Pos: pos, Seq: s.seq})
+	s.trace = append(s.trace, Event{Name: "unlock:" + key, Args: []Value{Sc{T: base}}, PC: len(s.pc), Pos: pos, Seq: s.seq, GW: s.gwrites})
+	if s.atUnlock == nil {
+		s.atUnlock = s.snapshot()
+	}
 }
 
 // applyGhost performs ghost assignments (all right-hand sides are evaluated first).
@@ -1109,6 +1112,9 @@ func (c *Ctx) checkGuardNamed(s *State, in ssa.Instruction, gf guardedField, bas
 	fk := fnKey(in.Parent())
 	ord := c.ordinal("guard", in)
 	name := fmt.Sprintf("%s/guard@%s#%d:%s:%s", fk, otag(in), ord, gf.key, what)
+	if write {
+		s.gwrites++
+	}
 	switch gf.class {
 	case "mutex":
 		var alts []Term
